@@ -10,6 +10,7 @@ package kubeeventsmanager
 // (what snapshots show) always follows the last delivered state.
 
 import (
+	"k8s.io/client-go/tools/cache"
 	"encoding/json"
 	"fmt"
 	"sort"
@@ -117,11 +118,16 @@ type c08ev struct {
 	typ   kemtypes.WatchEventType
 	state int
 	// initial: an Added delivered as part of an informer's initial list (isInInitialList=true);
-	// it means exactly what any other Added means
+	// it means exactly what any other Added means. For a Deleted: the deletion is delivered as a
+	// tombstone (cache.DeletedFinalStateUnknown, by value, as client-go does after a relist that
+	// found the object gone); it means exactly what any other Deleted means.
 	initial bool
 }
 
 func (e c08ev) String() string {
+	if e.initial && e.typ == kemtypes.WatchEventDeleted {
+		return fmt.Sprintf("%s-tombstone(s%d)", e.typ, e.state)
+	}
 	if e.initial {
 		return fmt.Sprintf("%s-initial(s%d)", e.typ, e.state)
 	}
@@ -188,7 +194,11 @@ func c08run(cfg c08cfg, seq []c08ev) (sig, what, outcome string) {
 		case kemtypes.WatchEventModified:
 			inf.OnUpdate(nil, u)
 		case kemtypes.WatchEventDeleted:
-			inf.OnDelete(u)
+			if ev.initial {
+				inf.OnDelete(cache.DeletedFinalStateUnknown{Key: "ns/o", Obj: u})
+			} else {
+				inf.OnDelete(u)
+			}
 		}
 		// an event handed to the hook carries the projection of the very object it is about
 		if len(got) > before && cfg.filter != "" && p.single && !p.nonObj {
@@ -291,6 +301,12 @@ func TestVerifC08(t *testing.T) {
 	for _, st := range states {
 		if vres.Thorough() || st == 0 || st == 2 {
 			alpha = append(alpha, c08ev{kemtypes.WatchEventAdded, st, true})
+		}
+	}
+	// Deleted delivered as a tombstone: the cached state in the quick tier, every state in the thorough tier
+	for _, st := range states {
+		if vres.Thorough() || st == 0 {
+			alpha = append(alpha, c08ev{kemtypes.WatchEventDeleted, st, true})
 		}
 	}
 	// multi-output filters need the list-changing state even in the quick tier
